@@ -1125,6 +1125,221 @@ def m_latin1(g, c):
     _set_names(c, [('teletex', h)], False, g.rng.choice([h.encode('utf-8'), h.encode('latin-1')]))
 
 
+# ---- string decoding strictness (UTF8String / BMPString / dNSName contents)
+
+# (label, bytes that stand for nothing in UTF-8); `dot` entries replace the first '.' of the host name, the others
+# are inserted at the given place
+_BAD_UTF8 = [
+    ('overlong-2-dot', 'dot', b'\xc0\xae'), ('overlong-3-dot', 'dot', b'\xe0\x80\xae'),
+    ('overlong-4-dot', 'dot', b'\xf0\x80\x80\xae'), ('overlong-2-letter', 'mid', b'\xc1\xa1'),
+    ('overlong-3-e9', 'mid', b'\xe0\x83\xa9'), ('surrogate-high', 'mid', b'\xed\xa0\x80'),
+    ('surrogate-low', 'mid', b'\xed\xb0\x80'), ('surrogate-pair-cesu8', 'mid', b'\xed\xa0\xbd\xed\xb8\x80'),
+    ('above-10ffff', 'mid', b'\xf4\x90\x80\x80'), ('five-byte-form', 'mid', b'\xf8\x88\x80\x80\x80'),
+    ('truncated-at-end-2-of-3', 'end', b'\xe2\x82'), ('truncated-at-end-1-of-2', 'end', b'\xc3'),
+    ('truncated-at-end-3-of-4', 'end', b'\xf0\x9f\x98'), ('truncated-before-ascii', 'start', b'\xc3'),
+    ('truncated-in-the-middle', 'mid', b'\xe2\x82'), ('lone-continuation', 'mid', b'\x80'),
+    ('lone-continuation-at-end', 'end', b'\xbf'), ('byte-ff', 'mid', b'\xff'), ('byte-fe', 'start', b'\xfe'),
+]
+_BAD_BMP = [
+    ('bmp-lone-high-at-end', 'end', b'\xd8\x3d'), ('bmp-lone-low', 'mid', b'\xde\x00'),
+    ('bmp-high-then-letter', 'mid', b'\xd8\x3d\x00a'), ('bmp-low-then-high', 'mid', b'\xde\x00\xd8\x3d'),
+    ('bmp-two-highs', 'mid', b'\xd8\x3d\xd8\x3d'),
+]
+
+
+def _spoil(h, where, bad, bmp=False):
+    """(bytes of the ill-formed string, the text a lenient decoder could make of it)"""
+    raw = h.encode('utf-16-be') if bmp else h.encode()
+    unit = 2 if bmp else 1
+    if where == 'dot':
+        i = h.index('.') * unit
+        return raw[:i] + bad + raw[i + unit:], h
+    if where == 'end':
+        return raw + bad, h
+    if where == 'start':
+        return bad + raw, h
+    i = (len(h) // 2) * unit
+    return raw[:i] + bad + raw[i:], h
+
+
+def _req(kind, ident, g, need):
+    """one name-element request whose buffer is large enough for `need` bytes plus the terminator"""
+    return (kind, ident, max(need + 1, g.rng.choice([64, 256, 300])))
+
+
+@cls('name-string-invalid-encoding', weight=6)
+def m_str_invalid(g, c):
+    r = g.rng
+    h = _h(g)
+    bmp = r.random() < 0.25
+    label, where, bad = r.choice(_BAD_BMP if bmp else _BAD_UTF8)
+    raw, lenient = _spoil(h, where, bad, bmp)
+    st = 'bmp' if bmp else 'utf8'
+    c['_sub'] = label
+    # what a peer could ask for: the lenient reading, or (UTF-8 only) the very bytes of the certificate
+    asks = [lenient.encode()]
+    if not bmp and b'\0' not in raw:
+        asks.append(raw)
+    v = r.randrange(4 if not bmp else 2) if not bmp else r.choice([0, 2])
+    if v == 0:      # CN only: the CN is what the server name is matched against
+        _set_names(c, [(st, raw)], False, r.choice(asks))
+        c['_ne'] = [_req('dn', 'CN', g, len(raw))]
+    elif v == 1:    # the only dNSName
+        _set_names(c, [('utf8', 'Service %d' % g.n())], [('dns', raw)], r.choice(asks))
+        c['_ne'] = [_req('san', 'dns', g, len(raw)), ('dn', 'CN', 64)]
+    elif v == 2:    # CN / O carry the ill-formed string, a proper dNSName matches: only the name elements are affected
+        attr = r.choice(['CN', 'O', 'OU'])
+        _set_names(c, None, [('dns', h.encode())], _mix_case(g, h).encode())
+        ee = c['chain'][0]
+        dn = [tuple(atv for atv in rdn if atv[0] != attr) for rdn in ee['subject']]
+        dn = [rdn for rdn in dn if rdn] + [((attr, st, raw),)]
+        ee['subject'] = tuple(dn)
+        c['_dns'][0] = ee['subject']
+        c['_ne'] = [_req('dn', attr, g, len(raw)), _req('san', 'dns', g, len(h)), _req('dn', attr, g, len(raw))]
+    else:           # an ill-formed dNSName next to a proper one
+        names = [('dns', raw), ('dns', h.encode())]
+        if r.random() < 0.5:
+            names.reverse()
+        _set_names(c, [('utf8', 'Service %d' % g.n())], names, h.encode())
+        c['_ne'] = [_req('san', 'dns', g, len(raw)), _req('san', 'dns', g, len(raw))]
+
+
+_NON_ASCII = ['café', 'bücher', '例え', 'x\U0001f600y', '\U0010fffd', '߿ࠀ', 'ￜÿ',
+              '\U00010000', '퟿']
+
+
+@cls('name-string-valid-non-ascii', weight=4)
+def m_str_valid(g, c):
+    r = g.rng
+    word = r.choice(_NON_ASCII)
+    h = '%s%d.%s' % (word, g.n(), _h(g))
+    want = h.encode('utf-8')
+    astral = any(ord(ch) > 0xFFFF for ch in h)
+    st = r.choice(['utf8', 'utf8', 'bmp']) if not astral else 'utf8'
+    c['_sub'] = st + ('-4-byte' if astral else '')
+    v = r.randrange(3)
+    if v == 0:
+        _set_names(c, [(st, h)], False, want)
+        c['_ne'] = [_req('dn', 'CN', g, len(want))]
+    elif v == 1:
+        _set_names(c, [('utf8', 'Service %d' % g.n())], [('dns', want)], want)
+        c['_ne'] = [_req('san', 'dns', g, len(want))]
+    else:
+        attr = r.choice(['O', 'OU', 'CN'])
+        plain = _h(g)
+        _set_names(c, None, [('dns', plain.encode())], plain.encode())
+        ee = c['chain'][0]
+        dn = [tuple(atv for atv in rdn if atv[0] != attr) for rdn in ee['subject']]
+        ee['subject'] = tuple([rdn for rdn in dn if rdn] + [((attr, st, h),)])
+        c['_dns'][0] = ee['subject']
+        # a buffer exactly large enough, one byte short, or ample
+        c['_ne'] = [('dn', attr, r.choice([len(want) + 1, len(want), len(want) + 1, 256]))]
+
+
+@cls('name-string-bmp-surrogate-pair')
+def m_str_bmp_pair(g, c):
+    # BMPString is UCS-2; whether a surrogate pair is combined (UTF-16) or refused is not documented
+    r = g.rng
+    h = 'x\U0001f600%d.%s' % (g.n(), _h(g))
+    if r.random() < 0.5:
+        _set_names(c, [('bmp', h)], False, r.choice([h.encode('utf-8'), g.host().encode()]))
+        c['_ne'] = [_req('dn', 'CN', g, len(h.encode('utf-8')))]
+    else:
+        plain = _h(g)
+        _set_names(c, [('bmp', h)], [('dns', plain.encode())], plain.encode())
+        c['_ne'] = [_req('dn', 'CN', g, len(h.encode('utf-8')))]
+
+
+# ---- names at the 255 / 256 byte boundary
+
+def _long_name(g, n):
+    """a host-name shaped string of exactly n bytes (labels of at most 63 characters)"""
+    r = g.rng
+    out = ''
+    while len(out) < n:
+        left = n - len(out)
+        k = min(left, r.randint(20, 63))
+        if left - k == 1:
+            k -= 1
+        out += ''.join(r.choice('abcdefghijklmnopqrstuvwxyz0123456789') for _ in range(k))
+        if len(out) < n:
+            out += '.'
+    assert len(out) == n and not out.endswith('.')
+    return out
+
+
+@cls('name-length-boundary', weight=7)
+def m_len_boundary(g, c):
+    r = g.rng
+    n = r.choice([254, 255, 255, 256, 256, 300])
+    where = r.choice(['cn', 'san', 'attr'])
+    c['_sub'] = '%s-%d' % (where, n)
+    buf = r.choice([255, 256, 257, n, n + 1, n + 2, 300])
+    if where == 'attr':
+        attr = r.choice(['O', 'OU'])
+        if r.random() < 0.35:
+            st, val = 'teletex', 'é' * (n // 2) + ('a' if n % 2 else '')     # n bytes once converted to UTF-8
+        else:
+            st, val = r.choice(['utf8', 'printable', 'ia5']), _long_name(g, n)
+        ee = c['chain'][0]
+        dn = [tuple(atv for atv in rdn if atv[0] != attr) for rdn in ee['subject']]
+        ee['subject'] = tuple([rdn for rdn in dn if rdn] + [((attr, st, val),)])
+        c['_dns'][0] = ee['subject']
+        if not c['server']:
+            raise Skip()
+        c['_ne'] = [('dn', attr, buf)]
+        return
+    name = _long_name(g, n)
+    x = r.random()
+    if n <= 255:
+        server = _mix_case(g, name) if x < 0.7 else name[:-1] + ('x' if name[-1] != 'x' else 'y')
+    elif x < 0.5:
+        server = name[:255]                 # what a decoder that cuts at its internal limit would compare with
+        if server.endswith('.'):
+            server = name[:254]
+    elif x < 0.75:
+        server = name[:-1] + ('x' if name[-1] != 'x' else 'y')
+    else:
+        server = name                       # not documented either way
+    if where == 'cn':
+        _set_names(c, [(r.choice(['utf8', 'printable', 'ia5']), name)], False, server.encode())
+        c['_ne'] = [('dn', 'CN', buf)]
+    else:
+        names = [('dns', name.encode())]
+        if r.random() < 0.4:
+            names.insert(r.randint(0, 1), ('dns', g.host().encode()))
+        _set_names(c, [('utf8', 'Service %d' % g.n())], names, server.encode())
+        c['_ne'] = [('san', 'dns', buf)] if len(names) == 1 else [('san', 'dns', buf), ('san', 'dns', buf)]
+
+
+# ---- trust anchors whose key is almost the right one
+
+def _near_miss(g, keyname):
+    k = G.KEYS[keyname]
+    if k['kind'] == 'rsa':
+        return g.rng.choice(['e-3', 'e-65539', 'e-high-bit', 'e-longer'])
+    return g.rng.choice(['q-last-byte', 'q-last-byte', 'q-y-negated', 'q-y-first-byte'])
+
+
+@cls('direct-trust-near-miss-key', weight=4)
+def m_direct_nearmiss(g, c):
+    r = g.rng
+    a = _ee_direct(c)
+    a['keymod'] = _near_miss(g, a['key'])
+    c['_sub'] = a['keymod']
+    c['anchors'].insert(r.randint(0, len(c['anchors'])), a)
+    if r.random() < 0.65:
+        ra = _root_anchor(c)
+        c['anchors'] = [x for x in c['anchors'] if x is not ra]
+
+
+@cls('anchor-near-miss-key', weight=2)
+def m_anchor_nearmiss(g, c):
+    a = _root_anchor(c)
+    a['keymod'] = _near_miss(g, a['key'])
+    c['_sub'] = a['keymod']
+
+
 # ---- leaf key usage
 
 @cls('leaf-key-usage', weight=5)
@@ -1220,11 +1435,31 @@ def hx(b):
     return b.hex() if b else '-'
 
 
-def key_token(keyname, sep):
+def key_token(keyname, sep, keymod=None):
     k = G.KEYS[keyname]
     a, b = G.pub_bytes(k)
     if k['kind'] == 'rsa':
+        if keymod:
+            e = int.from_bytes(b, 'big')
+            e2 = {'e-3': 3, 'e-65539': 65539, 'e-high-bit': e | (1 << (8 * len(b) - 1)), 'e-longer': e | (1 << (8 * len(b)))}[keymod]
+            if e2 == e:
+                e2 = e + 2
+            b = e2.to_bytes((e2.bit_length() + 7) // 8, 'big')
         return sep.join(['R', a.hex(), b.hex()])
+    if keymod:
+        q = bytearray(b)
+        cl = (len(q) - 1) // 2
+        if keymod == 'q-last-byte':
+            q[-1] ^= 0x01
+        elif keymod == 'q-y-first-byte':
+            q[1 + cl] ^= 0x01
+        elif keymod == 'q-y-negated':       # the other point with this X: differs in the Y half only
+            y = G._EC[k['curve']]['p'] - k['y']
+            q[1 + cl:] = y.to_bytes(cl, 'big')
+        else:
+            raise ValueError(keymod)
+        assert bytes(q[:1 + cl]) == b[:1 + cl] and bytes(q) != b
+        b = bytes(q)
     return sep.join(['E', str(a[0]), b.hex()])
 
 
@@ -1241,6 +1476,8 @@ def case_line(g, case, cid, label, nd, sweep=False):
     if chain:
         for (k, ident) in r.choice(NE_VARIANTS):
             reqs.append((k, ident, r.choice([1, 2, 8, 16, 32, 64, 64, 256, 300])))
+        if case.get('_ne') is not None:
+            reqs = list(case['_ne'])[:10]
         exp_ne = R.name_elements(chain[0], reqs, with_san=bool(sn))
     ne = []
     for q, e in zip(reqs, exp_ne if reqs else []):
@@ -1256,15 +1493,15 @@ def case_line(g, case, cid, label, nd, sweep=False):
         if e is None:
             ne.append('%s/%s/%d/x/-' % (kind, ident, q[2]))
         else:
-            ne.append('%s/%s/%d/%d/%s' % (kind, ident, q[2], e[0], hx(e[1])))
+            ne.append('%s/%s/%d/%s/%s' % (kind, ident, q[2], e[0], hx(e[1])))
     anchors = []
     for a in case['anchors']:
-        anchors.append('%d/%s/%s' % (1 if a['ca'] else 0, G.der_dn(a['dn']).hex(), key_token(a['key'], '/')))
+        anchors.append('%d/%s/%s' % (1 if a['ca'] else 0, G.der_dn(a['dn']).hex(), key_token(a['key'], '/', a.get('keymod'))))
     dnset = [R.dn_norm(a['dn']) for a in case['anchors']]
     distinct = 1 if len(set(dnset)) == len(dnset) else 0
     hashes = sum(1 << G.HASH_ID[h] for h in case['hashes'])
     toks = [
-        'id=' + cid, 'cls=' + label, 'nd=%d' % nd, 'exp=' + exp, 'code=%d' % code,
+        'id=' + cid, 'cls=' + label, 'sub=' + (case.get('_sub') or '-'), 'nd=%d' % nd, 'exp=' + exp, 'code=%d' % code,
         'depth=%d' % (ref['depth'] if (ref['depth'] is not None and not ref['direct']) else -1),
         'time=%d:%d' % (days, secs), 'tmode=%d' % case['tmode'],
         'sn=' + ('-' if sn is None else ('e' if sn == b'' else sn.hex())),
